@@ -268,9 +268,15 @@ def handle (line : String) : String :=
       let tconcl := match stT with
         | some [] => v2 == Verdict.ok && sameFiles a2 a1
         | _ => true
+      -- C06: verify ok => needed ok with the same files; and (with the C09 condition) build ok with the same files
+      let (vV, aV) := runProject { cfg with mode := .verify } fs inputs
+      let stV := projStale { cfg with mode := .inMemory } trVerify fs inputs []
+      let vconcl := if vV == Verdict.ok && stV.isSome then
+          (vN == Verdict.ok && sameFiles aN aV) && (stN != some [] || (v1 == Verdict.ok && sameFiles a1 aV))
+        else true
       let srcs := (fs.files.map (·.1)).filter (fun p => (outputPath p).isSome)
       let deps := srcs.any (fun p => match (runPass cfg fs p true).1 with | .hasDeps _ => true | _ => false)
-      s!"v={showVerdict v1} deps={deps} needed={showSt stN} nconcl={nconcl} twice={if v1 == Verdict.ok then showSt stT else "n/a"} tconcl={tconcl}"
+      s!"v={showVerdict v1} deps={deps} needed={showSt stN} nconcl={nconcl} twice={if v1 == Verdict.ok then showSt stT else "n/a"} tconcl={tconcl} verify={if vV == Verdict.ok then (if stV.isSome && stN == some [] then "clean" else if stV.isSome then "needed-only" else "unsafe") else "n/a"} vconcl={vconcl}"
     | _, _, _, _ => "bad-field"
   | ["coordscan", files, dirs, world, dirworld, choices] =>
     match parseNats files, parseNats dirs, parseWorld (splitList world), parseDirWorld (splitList dirworld), parseNats choices with
